@@ -22,10 +22,13 @@ pub struct Style {
     pub rng: Rng,
     /// only whitespace text (data-oriented documents keep structure readable)
     pub ws_text_only: bool,
+    /// text nodes are never blank and carry no surrounding white space (for trim_text readers);
+    /// top-level white space between prolog, root and trailing comments is not written either
+    pub no_blank_text: bool,
 }
 impl Style {
     pub fn new(rng: Rng) -> Style {
-        Style { rng, ws_text_only: false }
+        Style { rng, ws_text_only: false, no_blank_text: false }
     }
     fn long_text(&mut self) -> String {
         // now and then far beyond any plausible fixed-size buffer (256, 1024, 4096 bytes)
@@ -39,6 +42,9 @@ impl Style {
         (0..n).map(|_| *self.rng.pick(&alphabet)).collect()
     }
     fn text(&mut self) -> String {
+        if self.no_blank_text {
+            return self.rng.pick(&["t", "some text", "1 &lt; 2", "x&amp;y", "Ünï", "0", "&company;", "AT&T", "a\nb"]).to_string();
+        }
         if !self.ws_text_only && self.rng.chance(1, 10) {
             return self.long_text();
         }
@@ -130,6 +136,7 @@ pub fn write_doc(top: &[Node], st: &mut Style) -> String {
                 "<?xml encoding=\"latin1\"?>",
             ])),
             Node::Misc if !seen_root && st.rng.chance(1, 3) => out.push_str("<!DOCTYPE r [ <!ELEMENT r ANY> ]>"),
+            Node::Text if st.no_blank_text => {}
             Node::Text => out.push_str(*st.rng.pick(&["\n", " ", "\n\n  "])),
             Node::Elem { .. } => {
                 seen_root = true;
